@@ -31,6 +31,7 @@ type VocabOpts struct {
 	Refs            bool // allow {"$ref": ...} forms for parameter / response / path item / schema
 	NoExtensions    bool
 	ScalarItemsPct  int  // (C07 only) not used by the normal form
+	RootRefs        bool // also draw the root reference ("#", "") as a $ref value (its JSON form is canonical: {"$ref":""})
 	EmptySecurity   bool // allow `security: []` and empty requirement objects (C14; outside C01's normal form)
 	Valid           bool // (C19) stay inside what schemas/v2/schema.json accepts: restricted schema vocabulary, value constraints, well-founded local $refs
 	Budget          int  // maximum number of optional members in one instance (default 40)
@@ -337,7 +338,12 @@ var refPool = []string{"#/definitions/a", "#/definitions/b~1c", "other.json#/def
 var idPoolV = []string{"http://example.com/schemas/a.json", "urn:x", "a.json", "http://example.com/s#frag"}
 var schemaURLPool = []string{"http://json-schema.org/draft-04/schema", "http://swagger.io/v2/schema.json", "http://example.com/meta#frag"}
 
-func refStr(v *V, d int) any { return refPool[Uniform(v.T, "ref", len(refPool))] }
+func refStr(v *V, d int) any {
+	if v.O.RootRefs && Pct(v.T, "rootref", 20) {
+		return []string{"#", ""}[Uniform(v.T, "rootrefform", 2)]
+	}
+	return refPool[Uniform(v.T, "ref", len(refPool))]
+}
 
 func fragEscape(name string) string {
 	name = strings.ReplaceAll(strings.ReplaceAll(name, "~", "~0"), "/", "~1")
